@@ -169,7 +169,9 @@ def two_entity_atom(rng, a1, k1, a2, k2):
 
 
 def fresh_ident(rng, used, pool=None):
-    pool = pool or ["m", "md", "md2", "c", "cd", "x", "n", "get", "Name", "e", "getName", "v", "vd", "q", "p", "a", "b", "node", "it", "s1", "_t", "mi"]
+    # (names that begin like HTML / XML entity names, percent escapes or format verbs are ordinary identifiers too)
+    pool = pool or ["m", "md", "md2", "c", "cd", "x", "n", "get", "Name", "e", "getName", "v", "vd", "q", "p", "a", "b", "node", "it", "s1", "_t", "mi",
+                    "lt", "gt", "amp", "notEmpty", "regexLike", "copyOf", "quot", "timesTwo", "param", "degree", "sect", "u0041", "x41", "nbsp"]
     for _ in range(100):
         c = rng.choice(pool)
         if rng.random() < 0.3:
@@ -212,7 +214,7 @@ def random_query(rng, kinds=None, values=None, n_entities=None, depth=3, n_preds
     q.preds = []
     n_preds = rng.choice([0, 0, 1, 2, 3]) if n_preds is None else n_preds
     for _ in range(n_preds):
-        pname = fresh_ident(rng, used, ["isX", "p", "pred", "check", "p2", "has", "q"])
+        pname = fresh_ident(rng, used, ["isX", "p", "pred", "check", "p2", "has", "q", "notOnCreate", "regexLike", "ltZero", "ampersand", "copyOf"])
         arity = rng.choice([1, 1, 2]) if len(q.from_items) > 1 else 1
         pks = rng.sample([k for k, _ in q.from_items], min(arity, len(q.from_items)))
         if q.preds and len(q.from_items) > 1 and rng.random() < 0.4:
